@@ -627,6 +627,14 @@ class Engine:
             it = self.ev(e.args[0], st); d = self.ev(e.args[1], st)
             if not isinstance(it, Iter): raise E2Error('iterator arithmetic on non-iterator')
             return Iter(it.base, it.off + d if fn == 'iter+' else it.off - d)
+        if fn == 'std::accumulate':
+            sq, lo, hi = self.iter_range(e.args[0], e.args[1], st)
+            init = self.ev(e.args[2], st)
+            if 'seqsum' not in self.db.specfns: raise E2Error('std::accumulate needs the spec function seqsum')
+            self.oblige(st, z3.And(lo == 0, hi >= 0, hi <= sq.n), 'model', 'std::accumulate is modelled for ranges [begin, begin+n)')
+            self.notes.append('std::accumulate modelled as the left-to-right sum (C++ standard)')
+            r = self.specfn('seqsum', [sq, hi], st)
+            return self.to_real(init) + r if sq.et == 'double' else init + r
         if fn == 'std::is_sorted':
             sq, lo, hi = self.iter_range(e.args[0], e.args[1], st)
             r = fresh('is_sorted', z3.BoolSort())
@@ -1775,8 +1783,12 @@ class Verifier(Engine):
             for cl in lm.requires:
                 if v in SP.names_in(cl.expr):
                     for c in self.clause_vals(cl.expr, s2):
-                        if isinstance(c, Quant): raise E2Error('lemma %s: quantified precondition mentions the induction variable' % name)
-                        pre.append(c)
+                        if isinstance(c, Quant):
+                            # the quantified precondition at v-1 is proved here (from the one at v), not assumed
+                            s3 = st.clone(); s3.assume(st.env[v] - 1 >= lb)
+                            self.oblige(s3, c, 'induction.pre', 'quantified precondition holds for %s - 1: %s' % (v, cl.text))
+                        else:
+                            pre.append(c)
             post = []
             for cl in lm.ensures:
                 for c in self.clause_vals(cl.expr, s2):
